@@ -92,7 +92,8 @@ const INTERNAL_NAMES: [&str; 15] =
     ["iterator", "default", "func", "mapper", "res", "con", "value", "array", "i", "len", "iter", "acc", "curr", "function", "val"];
 
 /// identifiers that merely begin with a word of the language (a type name or a keyword)
-pub const KEYWORD_PREFIXED_NAMES: [&str; 40] = [
+pub const KEYWORD_PREFIXED_NAMES: [&str; 46] = [
+    "ifx", "iffy_", "matchx", "inx", "modx", "elsex",
     "integer", "int_v", "floaty", "string_of", "boolean", "anything", "any_", "mutable", "structure", "iffy", "elsewhere", "matches", "returned",
     "looped", "fore", "breaker", "importer", "modulo", "truely", "falsey", "in_", "whiles", "continued", "format", "international", "return_",
     "break1", "loop_", "mut_", "forx", "while0", "continue_x", "true_", "false1", "mod_", "struct_", "bool_", "float1", "string2", "int0",
